@@ -2098,6 +2098,11 @@ func (l *Loader) loadByContext(ctx context.Context, source DataSource, fetchItem
 		}
 
 		if item.err != nil {
+			if ctx.Err() == nil && errors.Is(item.err, context.Canceled) {
+				// The leader's client went away. Its cancellation is not ours:
+				// perform the load on our own instead of failing with it.
+				return l.loadByContextDirect(ctx, source, headers, input, res)
+			}
 			return item.err
 		}
 
